@@ -55,26 +55,47 @@ class Closure:
         self.node, self.env = node, env
 
     def __call__(self, *args, **kwargs):
+        """Python's binding rules for every kind of parameter (positional-only, plain,
+        *args, keyword-only, **kw, defaults evaluated in the defining environment)."""
         a = self.node.args
-        params = [p.arg for p in a.posonlyargs + a.args]
+        pos_only = [p.arg for p in a.posonlyargs]
+        params = pos_only + [p.arg for p in a.args]
+        kwonly = [p.arg for p in a.kwonlyargs]
         env = dict(self.env)
-        if len(args) > len(params):
+        bound = set()
+        if len(args) > len(params) and a.vararg is None:
             raise TypeError("too many positional arguments")
         for p, v in zip(params, args):
             env[p] = v
+            bound.add(p)
+        if a.vararg is not None:
+            env[a.vararg.arg] = tuple(args[len(params):])
+        extra = {}
         for k, v in kwargs.items():
-            if k not in params or k in params[:len(args)]:
+            if k in bound:
+                raise TypeError(f"multiple values for {k}")
+            if (k in params and k not in pos_only) or k in kwonly:
+                env[k] = v
+                bound.add(k)
+            elif a.kwarg is not None:
+                extra[k] = v
+            else:
                 raise TypeError(f"bad keyword {k}")
-            env[k] = v
+        if a.kwarg is not None:
+            env[a.kwarg.arg] = extra
         nd = len(a.defaults)
         for i, p in enumerate(params):
-            if p not in env or (i >= len(args) and p not in kwargs):
+            if p not in bound:
                 di = i - (len(params) - nd)
-                if i >= len(args) and p not in kwargs:
-                    if di >= 0:
-                        env[p] = ev(a.defaults[di], self.env)
-                    else:
-                        raise TypeError(f"missing argument {p}")
+                if di >= 0:
+                    env[p] = ev(a.defaults[di], self.env)
+                else:
+                    raise TypeError(f"missing argument {p}")
+        for p, d in zip(kwonly, a.kw_defaults):
+            if p not in bound:
+                if d is None:
+                    raise TypeError(f"missing keyword-only argument {p}")
+                env[p] = ev(d, self.env)
         return ev(self.node.body, env)
 
 
